@@ -281,6 +281,21 @@ def _contexts(e: Env) -> List[Tuple[str, Any, bool, Dict]]:
                                              ("While", ("Bin", "Lt", ("Load", "i"), e.u(0)),
                                               ("Seq", e.tag(1), h, inc("i"))),
                                              e.tag(3), ("Return", ("Load", "i"))), True, V))
+    cs.append(("while-last", lambda h: ("Seq", ("Store", "i", ("Int", 0)),
+                                        ("While", ("Bin", "Lt", ("Load", "i"), e.u(0)),
+                                         ("Seq", e.tag(1), inc("i"), h)),
+                                        e.tag(3), ("Return", ("Load", "i"))), True, V))
+    cs.append(("for-last", lambda h: ("Seq", e.tag(9), ("For", ("Store", "i", ("Int", 0)), ("Bin", "Lt", ("Load", "i"), e.u(0)), inc("i"),
+                                                        ("Seq", e.tag(1), h)),
+                                      e.tag(3), ("Return", ("Load", "i"))), True, V))
+    cs.append(("for-only", lambda h: ("Seq", e.tag(9), ("For", ("Store", "i", ("Int", 0)), ("Bin", "Lt", ("Load", "i"), e.u(0)), inc("i"), h),
+                                      e.tag(3), ("Return", ("Load", "i"))), True, V))
+    cs.append(("while-nested-last", lambda h: ("Seq", ("Store", "i", ("Int", 0)),
+                                               ("While", ("Bin", "Lt", ("Load", "i"), e.u(0)),
+                                                ("Seq", inc("i"), ("Store", "j", ("Int", 0)),
+                                                 ("While", ("Bin", "Lt", ("Load", "j"), e.u(1)), ("Seq", inc("j"), e.tag(1), h)),
+                                                 e.tag(2))),
+                                               ("Return", ("Load", "i"))), True, V))
     cs.append(("for", lambda h: ("Seq", e.tag(9), ("For", ("Store", "i", ("Int", 0)), ("Bin", "Lt", ("Load", "i"), e.u(0)), inc("i"),
                                                    ("Seq", e.tag(1), h, e.tag(2))),
                                  e.tag(3), ("Return", ("Load", "i"))), True, V))
